@@ -409,6 +409,7 @@ package ocimem
 // The buffer is append-only: no method ever shortens or rewrites it (a
 // committed blob shares its backing array).
 //@ func (*Buffer).Write
+//@   ensures[callers-buffer-untouched] untouched(data) && string(data) == old(string(data))
 //@   ensures[offset-mismatch-refused] old(b.checkStartOffset) != 0 - 1 && old(len(b.buf)) != old(b.checkStartOffset) ==>
 //@     result.0 == 0 && errIs(result.1, ociregistry.ErrRangeInvalid) && string(b.buf) == old(string(b.buf))
 //@   ensures[refusal-keeps-the-check-armed] result.1 != nil ==> b.checkStartOffset == old(b.checkStartOffset)
